@@ -700,26 +700,25 @@ QUICK = [
     ("PC", "core6", 2, ("empty",), ("ctx",)),
     ("S3", "core4", 2, ("used",), ("ctx",)),
     ("S2", "core6", 2, ("empty", "used"), ("thr",)),
-    ("PC", "core4", 2, ("empty", "used"), ("thr",)),
+    ("PC", "core4", 2, ("used",), ("thr",)),
     ("S3", "core4", 1, ("used",), ("thr", "aio")),
-    ("S2", "writes", 2, ("empty", "used"), ("aio",)),
+    ("S2", "writes", 2, ("used",), ("aio",)),
     ("PC", "core6", 2, ("empty", "used"), ("aio",)),
-    # round 2
+    # round 2 (wall budget: the larger thread / asyncio / line families of these mechanisms run in thorough only)
     ("S2", "falsy10", 2, ("used", "falsy"), ("ctx",)),
-    ("PC", "falsy6", 2, ("empty", "falsy"), ("ctx", "aio")),
-    ("S2", "falsy6", 2, ("falsy",), ("thr", "aio")),
+    ("PC", "falsy6", 2, ("empty", "falsy"), ("ctx",)),
+    ("S2", "falsy6", 1, ("falsy",), ("thr", "aio")),
     ("S2", "proxy10", 2, ("used2",), ("ctx",)),
     ("S2", "twin", 2, ("used2",), ("ctx",)),
     ("S2", "mw", 2, ("used2",), ("ctx",)),
     ("S2", "hop6", 2, ("used2",), ("ctx",)),
     ("PC", "proxy6", 2, ("used2",), ("ctx",)),
-    ("PC", "twin6", 2, ("used2",), ("ctx", "aio")),
+    ("PC", "twin6", 2, ("used2",), ("ctx",)),
     ("PC", "mw6", 2, ("used2",), ("ctx", "aio")),
-    ("PC", "hop6", 2, ("used2",), ("ctx", "aio")),
+    ("PC", "hop6", 2, ("used2",), ("ctx",)),
     ("S2", "twin6", 2, ("used2",), ("aio",)),
-    ("S2", "mw6", 2, ("used2",), ("thr", "aio")),
-    ("S2", "hop6", 2, ("used2",), ("aio",)),
-    ("S3", "hop6", 1, ("used2",), ("thr",)),
+    ("S2", "mw6", 2, ("used2",), ("aio",)),
+    ("S2", "hop6", 1, ("used2",), ("thr", "aio")),
     ("S2", "proxy6", 2, ("used2",), ("aio",)),
     ("S2", "core6", 2, ("empty", "used"), ("aiox",)),
     ("PC", "core4", 2, ("empty", "used"), ("aiox",)),
@@ -731,10 +730,11 @@ THOROUGH = [
     ("S2", "writes", 2, ("empty", "used"), ("thr",)),
     ("S2", "core6", 3, ("empty", "used"), ("ctx",)),
     ("S2", "core6", 3, ("used",), ("aio",)),
-    ("S2", "core4", 3, ("empty", "used"), ("thr",)),
+    ("S2", "core4", 3, ("used",), ("thr",)),
     ("PC", "full", 2, ("used",), ("ctx",)),
     ("PC", "writes", 2, ("empty", "used"), ("ctx", "aio")),
     ("PC", "core6", 2, ("empty", "used"), ("thr",)),
+    ("PC", "core4", 2, ("empty",), ("thr",)),
     ("PC", "core4", 3, ("empty", "used"), ("ctx", "aio")),
     ("S3", "core6", 2, ("used",), ("ctx",)),
     ("S3", "core4", 2, ("empty",), ("ctx",)),
@@ -743,7 +743,8 @@ THOROUGH = [
     ("S3", "writes", 1, ("empty", "used"), ("ctx", "thr", "aio")),
     # round 2
     ("S2", "falsy", 2, ("empty", "used", "falsy"), ("ctx", "aio")),
-    ("S2", "falsy10", 2, ("empty", "falsy"), ("thr", "aiox")),
+    ("S2", "falsy10", 2, ("empty", "falsy"), ("aiox",)),
+    ("S2", "falsy6", 2, ("empty", "falsy"), ("thr",)),
     ("S2", "falsy6", 3, ("falsy",), ("ctx",)),
     ("PC", "falsy10", 2, ("empty", "used", "falsy"), ("ctx", "aio")),
     ("PC", "falsy6", 2, ("empty", "falsy"), ("thr",)),
@@ -775,8 +776,9 @@ THOROUGH = [
 #   NB the line-level oracle is "every context behaves as if alone", which does not hold for a list shared BY VALUE
 #   (the order of appends is the schedule): line families never combine a start that stores a list with `append`
 #   "S2": two sibling threads;  "PC": the parent thread spawns the child thread (copy_context) at every position
-LINE_QUICK = [("S2", "falsyline", 1, ("falsy",), 1), ("S2", "fullline", 1, ("used-nolist",), 2), ("S2", "fullline", 1, ("empty",), 1),
-              ("S2", "core4", 2, ("used-nolist",), 1), ("S2", "mw6", 1, ("used-nolist",), 2),
+LINE_QUICK = [("S2", "falsyline", 1, ("falsy",), 1), ("S2", "fullline", 1, ("used-nolist",), 1),
+              ("S2", "fullline", 1, ("empty",), 1), ("S2", "core4", 1, ("used-nolist",), 2),
+              ("S2", "core4", 2, ("used-nolist",), 1), ("S2", "mw6", 1, ("used-nolist",), 1),
               ("S2", "twin6", 1, ("used2",), 1), ("PC", "core4", 1, ("used-nolist",), 2),
               ("PC", "core4", 2, ("used-nolist",), 1)]
 LINE_THOROUGH = [("S2", "falsyline", 1, ("empty", "falsy"), 2), ("S2", "falsyline", 2, ("falsy",), 1),
@@ -1166,7 +1168,7 @@ EXEC_US = {"ctx": 60.0, "thr": 560.0, "aio": 90.0, "aiox": 90.0}   # one step (+
 
 def units(tier):
     fam = THOROUGH if tier == "thorough" else QUICK
-    per_unit = (12.0 if tier == "thorough" else 2.5) * 1e6     # target micro-seconds of CPU per work unit
+    per_unit = (12.0 if tier == "thorough" else 1.5) * 1e6     # target micro-seconds of CPU per work unit
     u = []
     for arr, alphabet, k, starts, reals in fam:
         nprog = n_programs(arr, alphabet, k)
@@ -1174,7 +1176,8 @@ def units(tier):
         nsched = ilv.count_schedules(lengths, {1: (0, k // 2)} if arr == "PC" else None)
         for sname in starts:
             for real in reals:
-                hopx = 3.0 if (alphabet.startswith("hop") and real == "thr") else 1.0
+                hopx = 3.0 if (alphabet.startswith("hop") and real in ("thr", "aio")) else 1.0
+                hopx *= 1.6 if alphabet in EXT_ALPH else 1.0
                 cost = (nprog * nsched * sum(lengths) * EXEC_US[real] * hopx
                         * (2 if (real == "thr" and sname == "empty") else 1))
                 ns = max(1, min(nprog, int(cost / per_unit) + 1))
